@@ -39,6 +39,8 @@ type c07Case struct {
 	pathQ1, pathH1  bool
 	opQ1, opQ2      bool
 	opH1Query       bool // operation declares a *query* parameter called h1 (same name as the path-level header, other location)
+	opQ1Header      bool // operation declares an optional *header* parameter called q1 (same name as the query parameters, other location)
+	opReversed      bool // the operation's parameter list in reverse order
 	q1, h1, q2      int  // 0 absent, then value index
 	body            int  // 0 undeclared, 1 valid, 2 invalid, 3 declared but missing
 	multi, exBody   bool
@@ -50,8 +52,8 @@ var c07H1Values = []string{"", "7", "zz"}
 var c07Q2Values = []string{"", "3", "zz"}
 
 func (c c07Case) sig() string {
-	return fmt.Sprintf("opSecurity=%s docSecurity=%s authFunc=%v pathParams{q1:%v,h1:%v} opParams{q1:%v,q2:%v,h1-in-query:%v} request{q1=%q,h1=%q,q2=%q,body=%d} MultiError=%v ExcludeRequestBody=%v ExcludeRequestQueryParams=%v",
-		c07SecLists[c.opSec].name, c07SecLists[c.docSec].name, c.authFunc, c.pathQ1, c.pathH1, c.opQ1, c.opQ2, c.opH1Query, c07Q1Values[c.q1], c07H1Values[c.h1], c07Q2Values[c.q2], c.body, c.multi, c.exBody, c.exQuery)
+	return fmt.Sprintf("opSecurity=%s docSecurity=%s authFunc=%v pathParams{q1:%v,h1:%v} opParams{q1:%v,q2:%v,h1-in-query:%v,q1-in-header:%v,reversed:%v} request{q1=%q,h1=%q,q2=%q,body=%d} MultiError=%v ExcludeRequestBody=%v ExcludeRequestQueryParams=%v",
+		c07SecLists[c.opSec].name, c07SecLists[c.docSec].name, c.authFunc, c.pathQ1, c.pathH1, c.opQ1, c.opQ2, c.opH1Query, c.opQ1Header, c.opReversed, c07Q1Values[c.q1], c07H1Values[c.h1], c07Q2Values[c.q2], c.body, c.multi, c.exBody, c.exQuery)
 }
 
 func (c c07Case) document() map[string]any {
@@ -68,6 +70,14 @@ func (c c07Case) document() map[string]any {
 	}
 	if c.opH1Query {
 		opParams = append(opParams, m("name", "h1", "in", "query", "schema", m("type", "string")))
+	}
+	if c.opQ1Header {
+		opParams = append(opParams, m("name", "q1", "in", "header", "schema", m("type", "string")))
+	}
+	if c.opReversed {
+		for i, j := 0, len(opParams)-1; i < j; i, j = i+1, j-1 {
+			opParams[i], opParams[j] = opParams[j], opParams[i]
+		}
 	}
 	if opParams != nil {
 		op["parameters"] = opParams
@@ -152,6 +162,9 @@ func c07Model(c c07Case, answer func(scheme string) bool) (parts []string, log [
 	if c.opH1Query {
 		ps = append(ps, par{"query", "h1", false}) // any string (or absence) is fine
 	}
+	if c.opQ1Header {
+		ps = append(ps, par{"header", "q1", false}) // optional string, never sent
+	}
 	for _, p := range ps {
 		if p.in == "query" && c.exQuery {
 			continue
@@ -201,7 +214,7 @@ func init() {
 	core.Register(&core.Check{
 		ID: "C07",
 		Rule: "operation security in {absent, [], [{}], [{A}], [{A,B}], [{A},{B}], [{A},{}], [{B,A},{A}]} (document security from the same set when the operation declares none) x AuthenticationFunc nil/set with every answer per call chosen when the callback is called " +
-			"x path-level parameters subset of {q1 required integer query, h1 required integer header} x operation parameters subset of {q1 string override, q2 optional integer, h1 as a query parameter (same name, other location)} x request values (absent/valid/invalid per parameter) x body {undeclared, valid, invalid, missing} " +
+			"x path-level parameters subset of {q1 required integer query, h1 required integer header} x operation parameters subset of {q1 string override, q2 optional integer, h1 as a query parameter, q1 as a header parameter (same name, other location)}, the operation's list in both orders x request values (absent/valid/invalid per parameter) x body {undeclared, valid, invalid, missing} " +
 			"x MultiError x ExcludeRequestBody x ExcludeRequestQueryParams. Truth-table model gives pass/fail, the multiset of failing parts (multi-error mode) and the callback log. non-trivial = at least one part is declared",
 		Assumptions: []string{
 			"truth-table model in mc/checks/c07.go follows the property statement: effective security, effective parameters (override by name AND location), exclusions, empty list/requirement need no authentication",
@@ -220,6 +233,10 @@ func init() {
 			c.authFunc = !x.Bool()
 			c.pathQ1, c.pathH1 = x.Bool(), x.Bool()
 			c.opQ1, c.opQ2, c.opH1Query = x.Bool(), x.Bool(), x.Bool()
+			c.opQ1Header = x.Bool()
+			if c.opQ1Header || (c.opQ1 && c.opH1Query) {
+				c.opReversed = x.Bool() // the order of the operation's list matters only next to same-named neighbours
+			}
 			if c.pathQ1 || c.opQ1 {
 				c.q1 = x.Choose(len(c07Q1Values))
 			}
@@ -234,8 +251,8 @@ func init() {
 			if !r.Own(x) {
 				return
 			}
-			if r.Tier != "thorough" && c.opH1Query && (c.opQ2 || c.q1 > 1) {
-				return // quick tier: the same-name-other-location parameter only in its simplest surroundings
+			if r.Tier != "thorough" && (c.opH1Query || c.opQ1Header) && (c.opQ2 || c.q1 > 1 || (c.opH1Query && c.opQ1Header)) {
+				return // quick tier: the same-name-other-location parameters only in their simplest surroundings
 			}
 			docJSON, _ := json.Marshal(c.document())
 			doc, err := openapi3.NewLoader().LoadFromData(docJSON)
